@@ -242,6 +242,114 @@ class Ctx:
             self.add_count("cases_without_result", missing)
         return allrec
 
+    def fuzz(self, target, jobs=16, runs=20000, corpus_n=240, max_len=20000, leaks=False, only_leaks=False, unit_timeout=60):
+        """Coverage-guided stratum: libFuzzer (clang, ASan + gating UBSan kinds) over harness/fuzzmon.c.  `jobs` independent
+        processes, each with its own copy of a generated seed corpus and its own -seed, each bounded by -runs (a count, not
+        seconds).  A report is keyed like every other crash; a unit over the per-unit watchdog is re-run alone once before it
+        counts as a hang; out-of-memory units are counted, not judged."""
+        try:
+            gen = build.build_driver("plain", "fuzzmon", ["-DFZ_CORPUS"], ["spec.c"])
+            exe = build.build_driver("fuzz", "fuzzmon", (), ["spec.c"])
+        except build.BuildError as e:
+            self.harness_errors.append("build: " + str(e)[-1500:])
+            return
+        work = os.path.join(WORK, "fz-%s-%d" % (self.prop, os.getpid()))
+        shutil.rmtree(work, ignore_errors=True)
+        os.makedirs(os.path.join(work, "seedcorpus"))
+        try:
+            p = subprocess.run([gen, os.path.join(work, "seedcorpus"), str(self.seed), str(corpus_n)], stdout=subprocess.PIPE, stderr=subprocess.STDOUT, timeout=900)
+            if p.returncode != 0:
+                self.harness_errors.append("fuzz corpus generator failed: " + p.stdout.decode("utf-8", "replace")[-400:])
+                return
+            env = dict(os.environ)
+            env["ASAN_OPTIONS"] = "detect_leaks=%d:allocator_may_return_null=1:malloc_context_size=14:max_allocation_size_mb=3072:quarantine_size_mb=16" % (1 if leaks else 0)
+            env["UBSAN_OPTIONS"] = "print_stacktrace=1:halt_on_error=1"
+            env["FZ_TARGET"] = target
+
+            def one(j):
+                cdir = os.path.join(work, "c%d" % j); adir = os.path.join(work, "a%d" % j)
+                shutil.copytree(os.path.join(work, "seedcorpus"), cdir); os.makedirs(adir)
+                cmd = [exe, cdir, "-max_len=%d" % max_len, "-timeout=%d" % unit_timeout, "-rss_limit_mb=3500", "-malloc_limit_mb=3000",
+                       "-runs=%d" % runs, "-seed=%d" % (self.seed * 1000 + j + 1), "-artifact_prefix=" + adir + "/", "-print_final_stats=1",
+                       "-detect_leaks=%d" % (1 if leaks else 0)]
+                try:
+                    q = subprocess.run(cmd, stdout=subprocess.PIPE, stderr=subprocess.STDOUT, env=env, preexec_fn=_limits(64), timeout=6 * 3600)
+                    return j, q.returncode, q.stdout.decode("utf-8", "replace"), adir
+                except subprocess.TimeoutExpired as e:
+                    return j, -999, (e.stdout or b"").decode("utf-8", "replace"), adir
+            with ThreadPoolExecutor(min(jobs, NWORKERS)) as ex:
+                results = list(ex.map(one, range(jobs)))
+            tot_units = 0; best_cov = 0; best_ft = 0; new_units = 0; ooms = 0
+            for j, rc, out, adir in results:
+                m = re.search(r"stat::number_of_executed_units:\s+(\d+)", out)
+                units = int(m.group(1)) if m else 0
+                tot_units += units
+                m = re.search(r"stat::new_units_added:\s+(\d+)", out)
+                new_units += int(m.group(1)) if m else 0
+                for m in re.finditer(r"cov: (\d+) ft: (\d+)", out):
+                    best_cov = max(best_cov, int(m.group(1))); best_ft = max(best_ft, int(m.group(2)))
+                arts = sorted(os.listdir(adir))
+                if rc == 0 and not arts:
+                    continue
+                art = os.path.join(adir, arts[0]) if arts else None
+                tail = out[-12000:]
+                if "libFuzzer: out-of-memory" in out or "AddressSanitizer: requested allocation size" in out or "AddressSanitizer: out of memory" in out:
+                    ooms += 1
+                    continue
+                if "libFuzzer: timeout" in out and art:
+                    q = subprocess.run([exe, art, "-timeout=%d" % (unit_timeout * 3)], stdout=subprocess.PIPE, stderr=subprocess.STDOUT, env=env, preexec_fn=_limits(64))
+                    o2 = q.stdout.decode("utf-8", "replace")
+                    if q.returncode == 0:
+                        self.add_count("fuzz_units_over_watchdog_but_finished_alone", 1)
+                        continue
+                    tail = o2[-12000:]
+                    kind, func, summ = parse_report(tail)
+                    if "libFuzzer: timeout" in o2:
+                        kind, summ = "hang", "one input ran past %d s alone" % (unit_timeout * 3)
+                        fm = None
+                        for line in o2.splitlines():
+                            fm = _FRAME.search(line.strip())
+                            if fm and "/lib/" in fm.group(2) and "/harness/" not in fm.group(2):
+                                func = fm.group(1); break
+                else:
+                    kind, func, summ = parse_report(tail)
+                    if kind is None and "FZ-MONITOR:" in out:
+                        kind = "monitor"; func = re.search(r"FZ-MONITOR: (.*)", out).group(1)[:80]; summ = func
+                    if kind is None:
+                        kind = "exit-%s" % rc
+                if rc == -999 and not arts:
+                    self.harness_errors.append("fuzz job %d exceeded the outer watchdog" % j)
+                    continue
+                if kind and kind.startswith("exit-") and not art:
+                    self.harness_errors.append("fuzz job %d ended with %s and no artifact: %s" % (j, kind, out[-300:]))
+                    continue
+                if only_leaks and kind != "leak":
+                    self.cross["fuzz:" + str(kind) + ":" + str(func)] = self.cross.get("fuzz:" + str(kind) + ":" + str(func), 0) + 1
+                    continue
+                keep = None
+                if art:
+                    os.makedirs(os.path.join(WITNESS, self.prop), exist_ok=True)
+                    keep = os.path.join(WITNESS, self.prop + "-fuzz-" + os.path.basename(art)[:40])
+                    shutil.copy(art, keep)
+                rp = {"flavour": "fuzz", "driver": "fuzzmon", "mode": "fuzz", "seed": self.seed, "tier": self.tier, "case": j,
+                      "extra": [], "env": {"FZ_TARGET": target}, "artifact": keep}
+                self.viols.append({"prop": self.prop, "key": "crash:%s:%s" % (kind, func or "?"), "detail": summ or kind, "replay": rp, "stderr": tail})
+                self.add_count("abnormal_process_ends", 1)
+            self.evals += tot_units
+            self.cases_run += tot_units
+            self.add_count("fuzz_units_executed", tot_units)
+            self.add_count("fuzz_units_added_by_coverage", new_units)
+            if ooms:
+                self.add_count("fuzz_jobs_stopped_by_memory_limit_not_judged", ooms)
+            self.metrics["fuzz_edges_covered_" + target] = [best_cov, best_cov, 1]
+            self.metrics["fuzz_features_" + target] = [best_ft, best_ft, 1]
+            for k in range(0, best_cov, 250):
+                self.buckets.add("fuzz|%s|edges>=%d" % (target, k))
+            if tot_units == 0:
+                self.harness_errors.append("fuzz stratum executed no unit")
+        finally:
+            shutil.rmtree(work, ignore_errors=True)
+
     def _absorb(self, r, gate, flavour, driver, mode, extra, env_extra):
         self.evals += r.get("evals", 0)
         for b in r.get("buckets", []):
@@ -380,6 +488,17 @@ def replay(path):
     with open(os.path.join(path, "replay.json")) as f:
         w = json.load(f)
     rp = w["replay"]
+    if rp.get("artifact"):
+        exe = build.build_driver("fuzz", "fuzzmon", (), ["spec.c"])
+        env = dict(os.environ); env.update(rp.get("env") or {})
+        env["ASAN_OPTIONS"] = "detect_leaks=1:allocator_may_return_null=1"
+        art = rp["artifact"]
+        if not os.path.exists(art):
+            art = os.path.join(path, os.path.basename(art))
+        p = subprocess.run([exe, art, "-timeout=180"], env=env, preexec_fn=_limits(64), stdout=subprocess.PIPE, stderr=subprocess.STDOUT)
+        sys.stdout.write(p.stdout.decode("utf-8", "replace")[-8000:])
+        print("replay: %s (rc=%d)" % ("violation reproduced" if p.returncode else "not reproduced", p.returncode))
+        return 1 if p.returncode else 0
     exe = build.build_driver(rp["flavour"], rp["driver"])
     env = dict(os.environ)
     env.update(SAN_ENV)
